@@ -172,6 +172,17 @@ def install(engine: Any) -> None:
 
     engine.func_models["aas_core_codegen.common:pairwise"] = model_pairwise
 
+    def model_iterate_except_first(it, env, node, fr):
+        """common.iterate_except_first(xs) = xs[1:]  (iter, next, yield from)"""
+        src = env["iterable"]
+        if isinstance(src, VList) and not src.is_concrete():
+            n = src.length()
+            ln = z3.If(n > 0, n - 1, 0)
+            return VList([], base_len=ln, base_get=lambda i: it.list_get(src, i + 1, node, fr))
+        return VList(list(it.concrete_items(src))[1:])
+
+    engine.func_models["aas_core_codegen.common:iterate_except_first"] = model_iterate_except_first
+
     engine.ast_model = (ast_is, ast_attr)
 
     def bi_ast_dump(self, args, kwargs, node, fr):
